@@ -23,7 +23,8 @@ RULE = ("rule-based state machine that owns the clock: a receiver (|lat| <= 70, 
         "case. After every flush: no exception; listing rule (<= 59 s silent -> listed, > 61 s -> absent, in between adopt); no record for an address never seen "
         "in ADS-B and BDS 5,0 data attached for listed ones; the two tables are equal after upper-casing; every stored position whose tpos is the timestamp of "
         "a position message is within max(0.001 deg, one CPR step) of the true position at that message (lon mod 360). non-trivial = history with a global and "
-        "a reference decode, an eviction, a Comm-B merge, or a crossing of an NL band / equator / antimeridian")
+        "a reference decode, an eviction, a Comm-B merge, or a crossing of an NL band / equator / antimeridian"
+        " Also: histories starting at 1000, 0, negative or 1.7e9 seconds, process_raw called three times less than a second apart across 59-61 s of silence, a decoder created without a receiver position, every third Comm-B reply with identical header bits, and the repository's real reception log replayed in batches of 1/2/5/17 s (leg real_traffic).")
 ASSUMPTIONS = ["timestamps non-decreasing and tnow >= every timestamp of the batch", "surface aircraft stay within 30 NM of the receiver (surface CPR needs the receiver within 45 NM)",
                "noise messages use addresses distinct from the trajectory aircraft", "a Comm-B reply counts as 'heard' only for an address the table listed at that moment",
                "the zmq/multiprocessing plumbing and the curses screen of modeslive are not run"]
